@@ -325,7 +325,13 @@ func (g *gen) pickTable() (*MDB, *MTable) {
 
 func (g *gen) stmtCreate() Stmt {
 	g.ntab++
-	return Stmt{Kind: KCreate, Table: g.newName("t", g.ntab), Cols: g.genCols(), ViaText: g.r.Chance(0.5)}
+	st := Stmt{Kind: KCreate, Table: g.newName("t", g.ntab), Cols: g.genCols(), ViaText: g.r.Chance(0.5)}
+	if len(st.Cols) > 1 && g.r.Chance(0.04) {
+		// a column name that makes its catalog row exactly as long as the limit allows (or a little shorter)
+		i := 1 + g.r.Intn(len(st.Cols)-1)
+		st.Cols[i].Name += strings.Repeat("x", MaxRowBytes-20-len(st.Table)-len(st.Cols[i].Name)-g.r.Intn(3)*g.r.Intn(60))
+	}
+	return st
 }
 
 func (g *gen) stmtInsert(db *MDB, t *MTable, nrows int) Stmt {
@@ -434,7 +440,7 @@ var outOfInt32 = []Val{Int(math.MaxInt32 + 1), Int(math.MinInt32 - 1), Int(math.
 
 // stmtFail makes a statement that must be refused.
 func (g *gen) stmtFail(db *MDB, t *MTable) Stmt {
-	kinds := []string{"unknown-table", "colcount", "type", "range", "size", "dup-table", "upd-size", "upd-type", "upd-range", "del-unknown", "upd-unknown"}
+	kinds := []string{"unknown-table", "colcount", "type", "range", "size", "dup-table", "upd-size", "upd-type", "upd-range", "del-unknown", "upd-unknown", "create-long-name"}
 	for tries := 0; tries < 8; tries++ {
 		kind := kinds[g.r.Intn(len(kinds))]
 		switch kind {
@@ -444,6 +450,26 @@ func (g *gen) stmtFail(db *MDB, t *MTable) Stmt {
 			return Stmt{Kind: KDelete, Table: "nosuch", ViaText: g.r.Chance(0.5)}
 		case "upd-unknown":
 			return Stmt{Kind: KUpdate, Table: "nosuch", Set: []SetItem{{"k", Int(1)}}, ViaText: g.r.Chance(0.5)}
+		case "create-long-name":
+			// a table or column name so long that a catalog row exceeds the row limit
+			g.ntab++
+			st := Stmt{Kind: KCreate, Table: g.newName("t", g.ntab), Cols: g.genCols(), ViaText: g.r.Chance(0.5)}
+			if g.r.Chance(0.25) {
+				// declared VARCHAR length beyond the INT column that stores it in the catalog
+				i := g.r.Intn(len(st.Cols))
+				st.Cols[i].Type = TVarchar
+				st.Cols[i].Len = []int64{2147483648, 3000000000, 1 << 40}[g.r.Intn(3)]
+			} else if g.r.Chance(0.3) {
+				st.Table = st.Table + strings.Repeat("n", MaxRowBytes-14-len(st.Table)+g.r.Range(1, 40))
+			} else {
+				i := g.r.Intn(len(st.Cols))
+				over := MaxRowBytes - 20 - len(st.Table) - len(st.Cols[i].Name) + 1
+				if g.r.Chance(0.5) {
+					over += g.r.Range(1, 60)
+				}
+				st.Cols[i].Name += strings.Repeat("c", over)
+			}
+			return st
 		case "dup-table":
 			if t == nil {
 				continue
@@ -786,9 +812,32 @@ func (g *gen) composeSelect(db *MDB, t, other *MTable) string {
 			al := string(rune('b' + j))
 			kind := []string{"JOIN", "INNER JOIN", "LEFT JOIN", "RIGHT JOIN"}[r.Intn(4)]
 			lc := srcs[r.Intn(len(srcs))]
-			on := fmt.Sprintf("%s.%s = %s.%s", lc.alias, lc.tbl.Cols[r.Intn(len(lc.tbl.Cols))].Name, al, jt.Cols[r.Intn(len(jt.Cols))].Name)
+			oldRef := func() string { return lc.alias + "." + lc.tbl.Cols[r.Intn(len(lc.tbl.Cols))].Name }
+			newRef := func() string { return al + "." + jt.Cols[r.Intn(len(jt.Cols))].Name }
+			// operands of ON: usually one from each side, but any visible column may
+			// stand on either side (both from the joined table, both from earlier
+			// ones, reversed), with any comparison operator
+			var a, b string
+			switch x := r.Intn(20); {
+			case x < 11:
+				a, b = oldRef(), newRef()
+			case x < 14:
+				a, b = newRef(), oldRef()
+			case x < 17:
+				a, b = newRef(), newRef()
+			default:
+				a, b = oldRef(), oldRef()
+			}
+			cmp := "="
+			if r.Chance(0.15) {
+				cmp = []string{"!=", "<", "<=", ">", ">="}[r.Intn(5)]
+			}
+			on := fmt.Sprintf("%s %s %s", a, cmp, b)
 			if r.Chance(0.1) {
 				on = fmt.Sprintf("%s.k %s %d", al, []string{"<", ">=", "!="}[r.Intn(3)], r.Intn(5))
+			}
+			if r.Chance(0.12) {
+				on += fmt.Sprintf(" %s %s = %s", []string{"AND", "OR"}[r.Intn(2)], oldRef(), newRef())
 			}
 			from += fmt.Sprintf(" %s %s %s ON %s", kind, jt.Name, al, on)
 			srcs = append(srcs, src{jt, al})
@@ -1019,6 +1068,10 @@ func (g *gen) pickKnobs() Knobs {
 	}
 	if g.r.Chance(0.2) {
 		k.BiasLSN = []uint64{230, 65500, 65530, 16777190, 1<<32 - 60, 1<<32 - 5, 1 << 40, 1<<31 - 30}[g.r.Intn(8)]
+	}
+	if (pf.Prop == "C12" || pf.Prop == "C01" || pf.Prop == "C16") && pf.Boundary == 0 && g.r.Chance(0.12) {
+		// no crash images in these runs, so a 16 MiB sparse file costs little
+		k.BiasOffset = []uint64{1<<24 - 3*4096, 1<<24 - 4096, 1 << 24, 1<<24 + 4096, 1<<24 - 12*4096}[g.r.Intn(5)]
 	}
 	if len(pf.FlushMargins) > 0 {
 		k.FlushMargin = pf.FlushMargins[g.r.Intn(len(pf.FlushMargins))]
